@@ -26,6 +26,7 @@ func init() {
 			{Name: "C03-ASSERT", Floor: 8, Doc: "every single-result type assertion on an operand value in an operator node is dominated by a type test that makes it succeed", Run: c03Run},
 			{Name: "C03-DIV", Floor: 2, Doc: "every / and % in an operator node has its divisor value itself tested non-zero on every path reaching it", Run: nop},
 			{Name: "C03-SHIFT", Floor: 1, Doc: "every shift by a signed, non-constant count is dominated by a rejection of negative counts", Run: nop},
+			{Name: "C03-PROMOTE", Floor: 4, Doc: "an operand that may be a float is not converted to an int on the way into + - * / or a comparison (the float value type answers the int conversion by truncating)", Run: nop},
 			{Name: "C03-TRUTH", Floor: 3, Doc: "every boolean context (if/elseif, while, do-while, for, ?:, !, &&, ||) decides through data.AsBool and does not compare an Int/Float/String/Array payload itself", Run: nop},
 		},
 	})
@@ -627,6 +628,7 @@ func c03Run(r *Run) {
 			}
 		}
 	}
+	c03Promote(r, npkg)
 	c03Truth(r, npkg, dpkg)
 }
 
